@@ -127,6 +127,17 @@ def generate():
     out.append('/-- `urllib.parse.uses_netloc` -/\ndef usesNetloc : List (List Char) :=\n  [' +
                ', '.join(lchars(s) for s in uses_netloc) + ']\n')
 
+    import urllib.parse as up
+    out.append('/-- `urllib.parse.uses_relative` -/\ndef usesRelative : List (List Char) :=\n  [' +
+               ', '.join(lchars(s) for s in up.uses_relative) + ']\n')
+    out.append('/-- `urllib.parse.uses_params` -/\ndef usesParams : List (List Char) :=\n  [' +
+               ', '.join(lchars(s) for s in up.uses_params) + ']\n')
+    out.append('/-- `urllib.parse.scheme_chars` -/\ndef schemeChars : List Char :=\n  ' + lchars(up.scheme_chars) + '\n')
+    out.append('/-- characters `urlsplit` strips from the left (`_WHATWG_C0_CONTROL_OR_SPACE`) -/\n'
+               'def urlLstripChars : List Char :=\n  ' + lchars(up._WHATWG_C0_CONTROL_OR_SPACE) + '\n')
+    out.append('/-- characters `urlsplit` deletes (`_UNSAFE_URL_BYTES_TO_REMOVE`) -/\n'
+               'def urlRemovedChars : List Char :=\n  ' + lchars(''.join(up._UNSAFE_URL_BYTES_TO_REMOVE)) + '\n')
+
     sl = sorted(response_mod._HTTP_STATUS_LINES.items())
     out.append('/-- `_HTTP_STATUS_LINES` of response.py -/\ndef statusLines : List (Nat × List Char) :=\n  [' +
                ',\n   '.join('(%d, %s)' % (c, lchars(s)) for c, s in sl) + ']\n')
